@@ -618,6 +618,8 @@ fn sop_menu(image: &Image) -> Vec<SOp> {
             v.push(SOp::GarbageBlock(f, b, 0xFF));
             v.push(SOp::GarbageBlock(f, b, 0x01));
             v.push(SOp::GarbageBlock(f, b, 0xA7));
+            v.push(SOp::GarbageBlock(f, b, 0xB1));
+            v.push(SOp::GarbageBlock(f, b, 0xB2));
         }
     }
     let blocks: Vec<(usize, usize)> = (0..n).flat_map(|f| (0..nb).map(move |b| (f, b))).collect();
@@ -671,7 +673,20 @@ pub fn apply_sop(img: &mut Image, op: &SOp) {
     match op {
         SOp::ZeroBlock(f, b) => put(img, *f, *b, &vec![0u8; BLOCK]),
         SOp::GarbageBlock(f, b, seed) => {
-            let data: Vec<u8> = (0..BLOCK).map(|i| if *seed == 0xA7 { ((i * 31 + 7) % 256) as u8 } else { *seed }).collect();
+            let data: Vec<u8> = if *seed == 0xB1 || *seed == 0xB2 {
+                // fixed pseudo-random content (xorshift), two different streams
+                let mut x: u64 = 0x9E3779B97F4A7C15 ^ (*seed as u64) << 17 ^ (*b as u64) << 7 ^ *f as u64;
+                (0..BLOCK)
+                    .map(|_| {
+                        x ^= x << 13;
+                        x ^= x >> 7;
+                        x ^= x << 17;
+                        (x >> 24) as u8
+                    })
+                    .collect()
+            } else {
+                (0..BLOCK).map(|i| if *seed == 0xA7 { ((i * 31 + 7) % 256) as u8 } else { *seed }).collect()
+            };
             put(img, *f, *b, &data)
         }
         SOp::SwapBlocks(f1, b1, f2, b2) => {
